@@ -106,7 +106,8 @@ def handleMem (st : DState) (ws : List String) : Option (DState × String) :=
     -- a huge allocation is outside the model (the implementation's outcome is judged by the crash oracle)
     if n > 2 ^ 24 then
       let idx := areaIndex st.m.mem s
-      if pastEnd s n || collidesOther st.m.mem idx s n || idx.isNone then pure (st, "err")
+      -- (2^56 bytes and more no x86-64 host can provide: a definite error)
+      if pastEnd s n || collidesOther st.m.mem idx s n || idx.isNone || n ≥ 2 ^ 56 then pure (st, "err")
       else pure ({ st with poisoned := true }, "unspecified")
     else
     pure (memRes st (resizeSection st.m.mem s n))
@@ -140,6 +141,7 @@ def scriptedHook (id phase outcome : String) (edit : Option (Fin 16 × BitVec 64
     | none => s1
   match outcome with
   | "error" => .err s2
+  | "stoperror" => .err { s2 with finished := true }
   | "handled" => .ok .handled s2
   | "stop" => .ok .unhandled { s2 with finished := true }
   | "stophandled" => .ok .handled { s2 with finished := true }
@@ -194,7 +196,18 @@ def handleMachine (st : DState) (ws : List String) : Option (DState × String) :
     -- not materialise such a list; the implementation's outcome is still judged by the crash oracle
     let bigBrk : Bool := st.m.sys.registered.contains 12 && st.m.regs.get RAX == 12#64 &&
       (st.m.regs.get RDI).toNat > st.m.sys.brkStart + st.m.sys.brkLen + 2 ^ 24
-    if bigBrk then some ({ st with poisoned := true }, "unspecified") else
+    let brkReq : Nat := (st.m.regs.get RDI).toNat
+    if bigBrk && brkReq < st.m.sys.brkStart + st.m.sys.brkLen + 2 ^ 56 then some ({ st with poisoned := true }, "unspecified") else
+    -- 2^56 bytes and more no x86-64 host can provide: the resize then fails in the allocator exactly as it fails on a
+    -- collision (an error before anything is changed). The model shows this with a one-byte area at the far end of the
+    -- requested extent, present for the duration of this step only
+    let st0 : DState := if bigBrk then
+        match initArea st.m.mem (brkReq - 1) [0] (some "__blocker") with
+        | .ok m => { st with m := { st.m with mem := m } }
+        | _ => st
+      else st
+    let unblock (m : Machine) : Machine := if bigBrk then { m with mem := m.mem.filter (fun a => a.name != some "__blocker") } else m
+    let st := st0
     -- user hooks registered after the syscall handlers come later in the chain; the builtin pipe hook sits at a
     -- fixed index among the builtin ones
     let hooks := withFds st.hooks st.m.sys.registered fds
@@ -204,11 +217,11 @@ def handleMachine (st : DState) (ws : List String) : Option (DState × String) :
         | .instr i => i.mnem.startsWith "J" || i.mnem.startsWith "Cmov" || i.mnem.startsWith "Set" || i.mnem == "Adc"
         | .invalid => false
       | _ => false
-    if st.flagsUnknown && readsFlags then some ({ st with poisoned := true }, "unspecified") else
+    if st.flagsUnknown && readsFlags then some ({ st with m := unblock st.m, poisoned := true }, "unspecified") else
     let r := step hooks (decodeFn st.dec) st.m
     -- a failing instruction handler changes nothing but (possibly) the flags; a failing built-in hook may leave more
     let poisoned := r.out == .panic
-    some ({ st with m := r.s, poisoned := poisoned, flagsUnknown := st.flagsUnknown || r.errInExec }, stepOutStr r.out)
+    some ({ st with m := unblock r.s, poisoned := poisoned, flagsUnknown := st.flagsUnknown || r.errInExec }, stepOutStr r.out)
   | ["execute", fuel] => do
     let fuel ← fuel.toNat?
     if st.poisoned then some (st, "unspecified") else
@@ -277,6 +290,7 @@ def handleMachine (st : DState) (ws : List String) : Option (DState × String) :
   | ["stack", n] => do
     let n ← parseHex? n
     -- whether the host can provide a huge stack is outside the model (the implementation's outcome is judged by the crash oracle)
+    if n ≥ 2 ^ 56 then pure (st, "err") else
     if n > 2 ^ 24 then pure ({ st with poisoned := true }, "unspecified") else
     match initStack st.m n with
     | .ok (a, m) => pure ({ st with m := m }, "ok " ++ toHex a)
@@ -288,6 +302,7 @@ def handleMachine (st : DState) (ws : List String) : Option (DState × String) :
     let envp ← parseStrList envp
     -- a huge request is only answered when the model rejects it before allocating (size arithmetic leaving 64 bits)
     let failed : DState := { st with poisoned := true, m := { st.m with mem := stringsLeftBehind st.m.mem argv envp } }
+    if n ≥ 2 ^ 56 && (u64add n ((argv.length + envp.length + 3) * 8 + 48)).isSome then pure (failed, "err") else
     if n > 2 ^ 24 && (u64add n ((argv.length + envp.length + 3) * 8 + 48)).isSome then
       pure (failed, "unspecified") else
     match initStackProgramStart st.m n argv envp with
@@ -305,6 +320,17 @@ def handleMachine (st : DState) (ws : List String) : Option (DState × String) :
     let a ← parseHex? a
     match memReadN st.m.mem 8 a with
     | .ok v => pure ({ st with m := { st.m with regs := st.m.regs.set i (BitVec.ofNat 64 v) } }, "ok")
+    | .err => pure (st, "err")
+    | .panic => pure (st, "panic")
+  | ["stat", ra, v] => do
+    let ia ← findIdx? gprNames64 ra 16
+    let v ← parseHex? v
+    pure (memRes st (memWriteN st.m.mem 8 (st.m.regs.get ia).toNat v))
+  | ["ldat", r, ra] => do
+    let i ← findIdx? gprNames64 r 16
+    let ia ← findIdx? gprNames64 ra 16
+    match memReadN st.m.mem 8 (st.m.regs.get ia).toNat with
+    | .ok v => pure ({ st with m := { st.m with regs := st.m.regs.set i (BitVec.ofNat 64 v) } }, "ok " ++ toHex v)
     | .err => pure (st, "err")
     | .panic => pure (st, "panic")
   | ["ldreg", r, a] => do
